@@ -168,6 +168,7 @@ func c38(seed uint64, n int) {
 func main() {
 	seed := flag.Uint64("seed", 1, "PRNG seed")
 	n := flag.Int("n", 40, "number of random cases (meaning depends on the subcommand)")
+	keys := flag.String("keys", "/verif/work/keys", "directory caching generated RSA keys")
 	flag.Parse()
 	switch flag.Arg(0) {
 	case "c38":
@@ -176,6 +177,8 @@ func main() {
 		c07(*seed, *n)
 	case "c14":
 		c14(*seed, *n)
+	case "c15":
+		c15(*seed, *n, *keys)
 	default:
 		fmt.Fprintln(os.Stderr, "usage: chunkharness [-seed N] [-n N] c38|...")
 		os.Exit(2)
